@@ -167,7 +167,7 @@ def member_term(m, depth):
         rec = depth == 0 and any(mentions_top(y['ty']) for y in m['group'])
         return '(mkmember %s KNested Required %s)' % (cstr('ext_group_' + m['group'][0]['name']), cbool(rec))
     opt = {'OPTIONAL': 'Optional', 'DEFAULT': 'Default', None: 'Required'}[m['opt']]
-    rec = depth == 0 and mentions_top(m['ty'])
+    rec = depth == 0 and (mentions_top(m['ty']) or bool(m.get('_peer')))
     return '(mkmember %s %s %s %s)' % (cstr(m['name']), cty(m['ty']), opt, cbool(rec))
 
 
@@ -228,6 +228,43 @@ def collect(ck, c, parent, items, terms, idx, problems, src, depth=0):
                 problems.append('no default function %s' % fn)
 
 
+def by_value_cycle(mod):
+    """a cycle of by-value containment among the structs / enums of the module, or None"""
+    from props.C01 import names_by_value
+    graph = {}
+    for it in mod['items']:
+        if it.get('kind') == 'struct':
+            tys = [f['ty'] for f in it.get('fields', [])]
+        elif it.get('kind') == 'enum':
+            tys = [f['ty'] for v in it.get('variants', []) for f in v.get('fields', [])]
+        else:
+            continue
+        graph[it['name']] = [n for t in tys for n in names_by_value(t)]
+    state, stack = {}, []
+
+    def visit(n):
+        if n not in graph:
+            return None
+        if state.get(n) == 1:
+            return stack[stack.index(n):] + [n]
+        if state.get(n) == 2:
+            return None
+        state[n] = 1
+        stack.append(n)
+        for m in graph[n]:
+            r = visit(m)
+            if r:
+                return r
+        stack.pop()
+        state[n] = 2
+        return None
+    for n in list(graph):
+        r = visit(n)
+        if r:
+            return r
+    return None
+
+
 def snake(s):
     """to_rust_snake_case (Model/Names.v snake, without the keyword escape)"""
     s = s.replace('-', '_')
@@ -259,7 +296,16 @@ def run(ck):
         g = Gen(ck, k, top)
         c = g.constructed(0)
         header = ck.rng.choice(['AUTOMATIC TAGS', 'EXPLICIT TAGS', 'IMPLICIT TAGS', '']) + (' EXTENSIBILITY IMPLIED' if ck.rng.random() < 0.15 else '')
-        src = 'Mc%d DEFINITIONS %s ::= BEGIN\nLeaf%d ::= INTEGER\n%s ::= %s\nEND\n' % (k, header, k, top, cons_asn(c))
+        toptag = ck.rng.choice(['', '', '[APPLICATION %d] ' % ck.rng.randint(0, 30), '[%d] ' % ck.rng.randint(0, 30), '[PRIVATE 2] EXPLICIT '])
+        if c['kind'] == 'CHOICE' and 'EXPLICIT' not in toptag:
+            toptag = ''
+        peer = ''
+        if ck.rng.random() < 0.3 and c['kind'] != 'CHOICE':
+            # a cycle through a second assignment: Top -> Peer -> Top
+            c['root'].append({'name': 'peer%d' % k, 'ty': {'k': 'ref', 'name': 'Peer%d' % k}, 'opt': 'OPTIONAL', '_peer': True})
+            peer = 'Peer%d ::= %s { back %s, weight INTEGER }\n' % (k, ck.rng.choice(['SEQUENCE', 'SET']), top)
+            g.tags.add('mutual-recursion')
+        src = 'Mc%d DEFINITIONS %s ::= BEGIN\nLeaf%d ::= INTEGER\n%s%s ::= %s%s\nEND\n' % (k, header, k, peer, top, toptag, cons_asn(c))
         cases.append({'op': 'compile', 'sources': [src], '_c': c, '_top': top, '_tags': sorted(g.tags), '_implied': 'IMPLIED' in header})
     ck.sample({'asn1': cases[0]['sources'][0][:1200]})
     res = run_harness(cases)
@@ -297,6 +343,9 @@ def run(ck):
             # EXTENSIBILITY IMPLIED adds no component; the extension annotation of fields is unaffected
             pass
         collect(ck, cc, c['_top'], items, terms, idx, problems, src)
+        cyc = by_value_cycle(mod)
+        if cyc:
+            problems.append('recursive components are not boxed: %s contain each other by value' % ' -> '.join(cyc))
         if problems:
             ck.violation('impl-violation', src, problems=problems[:6], why=problems[0])
     for j in coq_eval_bad('C02', REQ, 'bool * str * list member * bool * list member * list field', 'corr', terms, label='fields'):
